@@ -35,7 +35,7 @@ def gen(rng, broker, tier):
     n = rng.randint(1, 8 if broker == "mem" else 5)
     jobs = []
     for i in range(n):
-        kind = rng.choice(["return", "return", "raise", "raise", "timeout", "bad-args", "dep-fail", "eager", "eager"])
+        kind = rng.choice(["return", "return", "raise", "raise", "timeout", "bad-args", "dep-fail", "eager", "eager", "bad-return"])
         retries = rng.choice([0, 0, 1, 2, 3])
         j = {"id": f"j{i}", "retries": retries, "tried0": rng.choice([0, 0, 0, min(1, retries), retries]),
              "store_result": rng.random() < 0.5, "use_bucket": rng.random() < 0.3,
@@ -48,6 +48,8 @@ def gen(rng, broker, tier):
             fails = rng.randint(1, 5)
             j["beh"] = [{"do": "raise", "exc": rng.choice(list(workload.EXC)), "dur_us": rng.choice([0, 500, 20_000])}
                         for _ in range(fails)] + [{"do": "return"}]
+        elif kind == "bad-return":
+            j["beh"] = [{"do": "bad-return", "dur_us": rng.choice([0, 1000])}] * rng.randint(1, 3) + [{"do": "return"}]
         elif kind == "timeout":
             j["timeout_s"] = 1
             j["beh"] = [{"do": "hang"}] * rng.randint(1, 2) + [{"do": "return"}]
